@@ -130,8 +130,10 @@ void FileGraph::fromMem(void* m, uint64_t node_offset, uint64_t edge_offset,
     else
       edgeData = 0;
   } else {
+    // 64-bit destinations keep the edge data 8-byte aligned: version 2 has
+    // no padding (see rawBlockSize, the writer, partFromFile, OfflineGraph)
     uint64_t* fptr64 = (uint64_t*)fptr;
-    fptr64 += numEdges + numEdges % 2;
+    fptr64 += numEdges;
 
     if (!lenlimit || lenlimit > numEdges + ((char*)fptr64 - (char*)m))
       edgeData = (char*)fptr64;
@@ -250,9 +252,7 @@ void* FileGraph::fromArrays(uint64_t* out_idx, uint64_t num_nodes, void* outs,
         *fptr++ = convert_htole64(((uint64_t*)outs)[i]);
     }
 
-    // padding
-    if (num_edges % 2)
-      fptr += 1;
+    // no padding in version 2: destinations are 8 bytes wide
 
     fptr0 = (char*)fptr;
   }
